@@ -176,15 +176,21 @@ func H_C18_builtin_objects() {
 	}
 	m1 := &Sign1Message{Headers: Headers{Protected: ProtectedHeader{}, Unprotected: UnprotectedHeader{}}, Payload: vBlob("p1")}
 	m2 := &Sign1Message{Headers: Headers{Protected: ProtectedHeader{}, Unprotected: UnprotectedHeader{}}, Payload: vBlob("p2")}
+	vAssume(!vRopeEq(m1.Payload, m2.Payload)) // distinct messages
 	snapS, snapV := vSnapshot(signer), vSnapshot(verifier)
 	vFreeze()
-	e1 := m1.Sign(vRand(), nil, signer)
-	e2 := m2.Sign(vRand(), nil, signer)
+	var e1, e2 error
+	vInterleaved(
+		func() { e1 = m1.Sign(vYieldRand(), nil, signer) },
+		func() { e2 = m2.Sign(vYieldRand(), nil, signer) })
+	vLogErr("sign m1", e1)
+	vLogErr("sign m2", e2)
 	vAssert("builtin: signing writes nothing into the shared signer", !vChanged(signer, snapS))
 	vAssert("builtin: signing message 1 writes nothing into message 2", vWritesInto(m2) <= 2 && vGlobalWrites() == 0)
 	if e1 == nil && e2 == nil {
-		m1.Verify(nil, verifier)
-		m2.Verify(nil, verifier)
+		r1 := m1.Verify(nil, verifier)
+		r2 := m2.Verify(nil, verifier)
+		vAssert("builtin: messages signed concurrently with one signer verify like sequentially signed ones", r1 == nil && r2 == nil)
 		if dv, ok := verifier.(DigestVerifier); ok {
 			dv.VerifyDigest(vBlobN("digest", 32, 32), m1.Signature)
 		}
